@@ -10,6 +10,7 @@ package fakeprom
 //	for _, h := range srv.Held() { srv.Release(h.Seq) }   // in any order
 //	srv.Requests()                              // every request seen, in arrival order
 //	srv.Problems()                              // protocol trouble: unparsable / fractional parameters, wrong path
+//	srv.SetDelays(d)                            // unheld requests sleep d[(start/1800)%len(d)] before answering
 //	bm.Orders                                   // optional: per-slice order in which the series are listed in a response
 //
 // Presence model: a sample of series s exists at unix second t  <=>  bit floor((t-Origin)/Step) of s is set.
@@ -112,6 +113,7 @@ type BitmapServer struct {
 	mu       sync.Mutex
 	cond     *sync.Cond
 	hold     bool
+	delays   []time.Duration
 	reqs     []RangeRequest
 	held     map[int]*heldReq
 	problems []string
@@ -187,12 +189,18 @@ func (s *BitmapServer) handle(w http.ResponseWriter, r *http.Request) {
 	req.Seq = len(s.reqs)
 	s.reqs = append(s.reqs, req)
 	var h *heldReq
+	var delay time.Duration
 	if s.hold {
 		h = &heldReq{req: req, release: make(chan struct{}), done: make(chan struct{})}
 		s.held[req.Seq] = h
+	} else if n := len(s.delays); n > 0 {
+		delay = s.delays[int((req.Start/1800)%int64(n)+int64(n))%n]
 	}
 	s.cond.Broadcast()
 	s.mu.Unlock()
+	if delay > 0 {
+		time.Sleep(delay)
+	}
 
 	if h != nil {
 		select {
@@ -318,6 +326,15 @@ func (s *BitmapServer) Release(seq int) {
 	}
 	close(h.release)
 	<-h.done
+}
+
+// SetDelays makes requests that are not held sleep before they are answered: a request for a slice starting at
+// `start` sleeps delays[(start/1800) % len(delays)], so that the arrival order of slice responses varies with the
+// drawn table rather than with the scheduler alone.
+func (s *BitmapServer) SetDelays(d []time.Duration) {
+	s.mu.Lock()
+	s.delays = d
+	s.mu.Unlock()
 }
 
 // ReleaseAll stops holding: everything blocked is released and later requests are answered at once.
